@@ -6,6 +6,10 @@ pathfinders ends with.
   add_node(legs)         adds exactly one node, under the fresh id `ssa`
   contract_nodes(i, j)   for two different live nodes: removes exactly i and j, adds
                          exactly one fresh node, appends exactly the step (i, j)
+  optimize_greedy(...)   the search phase of the greedy finders: whatever the scores are, every step it
+                         records goes through contract_nodes with two different nodes that are live at
+                         that moment (call-site obligation), ids stay fresh, a live node remains
+  neighbors(i)           never yields i itself (what optimize_greedy relies on for 'different')
   optimize_remaining_by_size()
                          from ANY state with at least one live node ends with exactly
                          one live node; every step it appends contracts two different
@@ -34,7 +38,7 @@ LegsL = Ty.List(Ty.Tuple([Int, Int]))
 HeapT = Ty.List(Ty.Tuple([Int, Int]))
 ProcT = ObjT("ContractionProcessor", {
     "nodes": Ty.Map(Int, LegsL), "edges": Ty.Map(Int, Ty.Set(Int)), "ssa": Int, "ssa_path": Ty.List(Ty.Tuple([Int, Int])),
-    "track_flops": Ty.Bool, "flops": Int, "flops_factor": Int, "appearances": Ty.List(Int), "sizes": Ty.List(Int)})
+    "track_flops": Ty.Bool, "flops": Int, "flops_limit": Ty.Real, "flops_factor": Int, "appearances": Ty.List(Int), "sizes": Ty.List(Int)})
 
 FRESH = "forall(keys(self.nodes), lambda n: n < self.ssa)"
 FRAME = ["self.ssa_path == old(self.ssa_path)", "self.appearances == old(self.appearances)", "self.sizes == old(self.sizes)"]
@@ -87,7 +91,7 @@ contract_nodes = Contract(
     target="cotengra.pathfinders.path_basic:ContractionProcessor.contract_nodes",
     props=["C05"],
     self_type=ProcT,
-    params={"i": Int, "j": Int},
+    params={"i": Int, "j": Int, "new_legs": Ty.Opt(LegsL)},
     defaults={"new_legs": "None"},
     requires=["i in self.nodes and j in self.nodes and i != j", FRESH],
     returns=Int,
@@ -217,7 +221,101 @@ remaining = Contract(
     ensures_rt=["len(self.nodes) == 1"],
     assumptions=["heapq keeps the multiset of entries (heappop removes one entry, heappush adds one); a dict is finite and iterating it visits every key once"],
 )
-CONTRACTS = [pop_node, add_node, contract_nodes, remaining]
+
+
+# ------------------------------------------------------------ the greedy search phase
+QueueT = Ty.List(Ty.Tuple([Ty.Real, Int]))
+CandT = Ty.Map(Int, Ty.Tuple([Int, Int, Int, LegsL]))
+
+
+def x_pairs(engine, st, args, node, kw):
+    """itertools.combinations(d, 2) for a dict/set d: pairs of two DIFFERENT members"""
+    d = engine.deref(st, args[0])
+    out = Ty.havoc(Ty.List(Ty.Tuple([Int, Int])), f"pairs@{engine.line(node)}")
+    p = z3.Int("cb!p")
+    n, a, b = out.c
+    st.assume(n >= 0)
+    st.assume(z3.ForAll([p], z3.Implies(z3.And(0 <= p, p < n), z3.And(a[p] != b[p], d.c[0][a[p]], d.c[0][b[p]])), patterns=[a[p], b[p]]))
+    return engine.alloc(st, out)
+
+
+def x_neighbors(engine, st, args, node, kw):
+    """self.neighbors(k): never k itself (the `neighbors` contract below)"""
+    k = engine.num(args[-1])
+    out = Ty.havoc(Ty.List(Int), f"neighbors@{engine.line(node)}")
+    p = z3.Int("nb!p")
+    st.assume(out.c[0] >= 0)
+    st.assume(z3.ForAll([p], z3.Implies(z3.And(0 <= p, p < out.c[0]), out.c[1][p] != k), patterns=[out.c[1][p]]))
+    return engine.alloc(st, out)
+
+
+def x_score(engine, st, args, node, kw):
+    return V(Ty.Real, [engine.fresh(st, "score", node, Ty.RealS)])
+
+
+Q, CT = "queue", "contractions"
+INV_G = [
+    FRESH,
+    "exists(keys(self.nodes), lambda n: True)",
+    # every candidate joins two DIFFERENT nodes
+    f"forall(keys({CT}), lambda x: {CT}[x][0] != {CT}[x][1])",
+    # the queue refers to recorded candidates only, each at most once, all numbered below c
+    f"forall(0, len({Q}), lambda p: {Q}[p][1] in {CT} and {Q}[p][1] < c)",
+    f"forall(0, len({Q}), lambda p: forall(0, len({Q}), lambda q: implies(p != q, {Q}[p][1] != {Q}[q][1])))",
+    "self.appearances == old(self.appearances) and self.sizes == old(self.sizes)",
+]
+greedy = Contract(
+    target="cotengra.pathfinders.path_basic:ContractionProcessor.optimize_greedy",
+    props=["C05"],
+    self_type=ProcT,
+    params={"costmod": Ty.Real, "temperature": Ty.Real, "seed": Ty.Opt(Int)},
+    requires=["exists(keys(self.nodes), lambda n: True)", FRESH],
+    returns=Ty.Bool,
+    modifies=["self.nodes", "self.edges", "self.ssa", "self.ssa_path", "self.flops"],
+    externals={"heapq.heappop": x_heappop, "heapq.heappush": x_heappush, "compute_size": x_size, "local_score": x_score,
+               "itertools.combinations": x_pairs, "ContractionProcessor.neighbors": x_neighbors},
+    hints={Q: QueueT, CT: CandT, "node_sizes": Ty.Map(Int, Int), "local_score": Ty.Key, "gmblgen": Ty.Key, "i": Int, "j": Int, "k": Int, "l": Int, "c": Int, "c0": Int, "_": Ty.Real,
+           "ilegs": LegsL, "klegs": LegsL, "mlegs": LegsL, "isize": Int, "jsize": Int, "ksize": Int, "lsize": Int, "msize": Int, "score": Ty.Real, "ix_nodes": Ty.Set(Int)},
+    nloops=5,
+    loops={
+        1: Loop(seen="S0", inv=INV_G),
+        2: Loop(pos="t1", inv=INV_G),
+        3: Loop(inv=INV_G),
+        4: Loop(pos="t3", inv=INV_G + ["k in self.nodes"]),
+    },
+    ensures=[FRESH, "exists(keys(self.nodes), lambda n: True)", "self.appearances == old(self.appearances) and self.sizes == old(self.sizes)"],
+    assumptions=["the scoring function, the sizes and the legs of candidates are arbitrary (they only steer the search); lookups node_sizes[..] / self.nodes[..] while scoring"
+                 " candidates are abstracted (their safety rests on the edge map being consistent with the nodes, which is not under contract);"
+                 " itertools.combinations yields pairs of different members; heapq keeps the multiset of entries; termination is not proved"],
+)
+greedy.abstract_stmts = {
+    "if temperature == 0.0:": ["local_score", "gmblgen", "score"],
+    "for i, ilegs in self.nodes.items():": ["node_sizes", "i", "ilegs"],
+    "isize = node_sizes[i]": ["isize"],
+    "jsize = node_sizes[j]": ["jsize"],
+    "lsize = node_sizes[l]": ["lsize"],
+    "klegs = compute_contracted(": ["klegs"],
+    "mlegs = compute_contracted(": ["mlegs"],
+}
+
+neighbors = Contract(
+    target="cotengra.pathfinders.path_basic:ContractionProcessor.neighbors",
+    props=["C05"],
+    self_type=ProcT,
+    params={"i": Int},
+    # (class invariant, monitored on reachable states: every index on a live node has an entry in the edge map)
+    requires=["i in self.nodes", "forall(0, len(self.nodes[i]), lambda p: self.nodes[i][p][0] in self.edges)"],
+    returns=Ty.List(Int),
+    hints={"ix": Int, "_": Int, "j": Int},
+    nloops=2,
+    loops={
+        0: Loop(pos="t", inv=["forall(0, len(__yields__), lambda q: __yields__[q] != i)"]),
+        1: Loop(seen="S", inv=["forall(0, len(__yields__), lambda q: __yields__[q] != i)"]),
+    },
+    # the node itself is never among its neighbours (what optimize_greedy relies on)
+    ensures=["forall(0, len(result), lambda q: result[q] != i)"],
+)
+CONTRACTS = [pop_node, add_node, contract_nodes, remaining, greedy, neighbors]
 
 
 # ------------------------------------------------------------ native side
@@ -270,6 +368,21 @@ def _gen_remaining(rng):
     return {"self": cp, "args": (), "describe": d}
 
 
+def _gen_greedy(rng):
+    cp, d = _processor(rng)
+    costmod = rng.choice([1.0, 0.5, 2.0])
+    temperature = rng.choice([0.0, 0.0, 0.3])
+    seed = rng.randint(0, 1000)
+    return {"self": cp, "args": (costmod, temperature, seed), "describe": d + f" costmod={costmod} temperature={temperature} seed={seed}"}
+
+
+def _gen_neighbors(rng):
+    cp, d = _processor(rng)
+    i = rng.choice(sorted(cp.nodes))
+    return {"self": cp, "args": (i,), "describe": d + f" neighbors of {i}"}
+
+
 pop_node.gen, add_node.gen, contract_nodes.gen, remaining.gen = _gen_pop, _gen_add, _gen_contract, _gen_remaining
+greedy.gen, neighbors.gen = _gen_greedy, _gen_neighbors
 for _c in CONTRACTS:
     _c.pre_must_hold = True  # states built through the class's own methods
